@@ -740,8 +740,8 @@ def run_r13_r14(chk, repo):
                               'records whose item is missing (NaN compares false both ways) are dropped as well', line=c.lineno,
                               witness='IGNORE=(WGT.LT.50) with a record whose WGT is the missing data token: NM-TRAN keeps it, '
                                       'the dataset loses it')
-    if n < 2:
-        raise AnalysisError(f'R13: only {n} query calls found in _filter_ignore_accept')
+    if n < 1:
+        raise AnalysisError('R13: no query call found in _filter_ignore_accept')
     R14 = chk.rule('R14', 'read_nonmem_dataset: columns that $INPUT names beyond the file are filled with the text of the NULL '
                           'value', floor=1)
     g = dm.functions.get('read_nonmem_dataset')
@@ -767,7 +767,11 @@ def run_r13_r14(chk, repo):
     if not fills:
         raise AnalysisError('R14: no statement that creates the missing columns found')
     for n_, v in fills:
-        ok = 'null_value' in unparse(v)
+        try:
+            vx = reach.expand_expr(gcfg, n_.id, v)
+        except Exception:
+            vx = v
+        ok = 'null_value' in unparse(vx)
         chk.instance(R14, f'{n_.text()[:60]}: filled with the NULL value: {ok}')
         if not ok:
             chk.violation(R14, dm.rel, g.qualname, n_.text()[:100],
